@@ -220,7 +220,11 @@ impl Check for C02 {
             }
         }
         let mut st = CaseStats::default();
-        let scanner = match build_guarded(case, false)? {
+        // half of the programs are built through the cache (build()), half without it: the two
+        // paths use different conversions inside scnr and both compile what users scan with
+        let through_cache = case.modes.iter().map(|m| m.pats.len() + m.transitions.len()).sum::<usize>() % 2 == 0;
+        st.flag("built_through_cache", through_cache);
+        let scanner = match build_guarded(case, through_cache)? {
             Ok(s) => s,
             Err(_) => {
                 st.count("build_failed");
